@@ -1856,6 +1856,8 @@ func c02dRunCase(r *Run, rng *Rng, dis *insts.Disassembler, cs *c02dCase) {
 	raced := cs.foreignLd && len(t.envAt) < cs.nEnv
 	sameTrace := c02dTrace(t.trace) == c02dTrace(e.trace)
 	diff := e.st.differences(&res.st)
+	// the static CFG check (c02_cfg.go): an accepted program must end as the emulator does
+	c02CfgCase(r, cs, line, true, diff == "" && sameTrace, raced, diff)
 	switch cs.kind {
 	case "sync":
 		r.Checked("wf-trace")
